@@ -19,11 +19,11 @@ namespace TdVerif.C20
 abbrev Path := List String
 
 inductive Err where
-  | key | lock | runtime | type | attr
+  | key | lock | runtime | type | attr | value
   deriving DecidableEq, Repr
 
 def Err.toStr : Err → String
-  | .key => "key" | .lock => "lock" | .runtime => "runtime" | .type => "type" | .attr => "other"
+  | .key => "key" | .lock => "lock" | .runtime => "runtime" | .type => "type" | .attr => "other" | .value => "value"
 
 structure Meta where
   batch : List Nat
@@ -244,6 +244,11 @@ def refineOk (cur : Option (List String)) (ns : List String) : Bool :=
   | none => true
   | some c => (List.zip c ns).all (fun p => p.1 == p.2)
 
+/-- a nested tensordict sits on device `d` (a leaf of the modelled domain carries no device) -/
+def Tree.onDevice (d : String) : Tree V → Prop
+  | .leaf _ => True
+  | .node m _ => m.device = some d
+
 /-- first step of `_validate_value`: `value.to(device)` when the container has a device and the value another -/
 def moveToDevice (d : Option String) (t : Tree V) : Tree V :=
   match d, t with
@@ -444,5 +449,69 @@ def mtApply (o : Opts) (fn : Fn V) (sched : List Nat) (self : Tree V) (others : 
     | .ok (some r) =>
       let selfLocked := match self with | .node m _ => m.locked | .leaf _ => false
       if o.propagateLock && !o.inplace && selfLocked then .ok (some r.lockAll) else .ok (some r)
+
+/-! ### lazy stacks (tensordict/_lazy.py:`LazyStackedTensorDict._apply_nest`, default `is_leaf`, no batch_size override)
+
+The operands are unbound along `self.stack_dim` (`other.unbind(self.stack_dim)`: the spec side — the model receives,
+for every member, the list of operand slices) and the call runs member by member with the *same* prefix, device,
+options; `names` and `batch_size` are not forwarded. -/
+
+/-- `out[i]` for the first member / the remaining members -/
+def outHead (outs : Option (List (Tree V))) : Option (Tree V) :=
+  match outs with
+  | some (x :: _) => some x
+  | _ => none
+def outTail (outs : Option (List (Tree V))) : Option (List (Tree V)) :=
+  match outs with
+  | some (_ :: xs) => some xs
+  | _ => none
+
+/-- `td._apply_nest(fn, *oth, …, prefix=prefix, out=out[i])` for every member (`_zip_strict`) -/
+def applyMembers (o : Opts) (fn : Fn V) (pre : Path) : List (Tree V) → List (List (Tree V)) → Option (List (Tree V)) →
+    Except Err (List (Option (Tree V)))
+  | [], [], _ => .ok []
+  | m :: ms, os :: oss, outs =>
+    match applyNode o fn pre m os (outHead outs) with
+    | .error e => .error e
+    | .ok r =>
+      match applyMembers o fn pre ms oss (outTail outs) with
+      | .error e => .error e
+      | .ok rs => .ok (r :: rs)
+  | _, _, _ => .error .value
+
+def allNone : List (Option (Tree V)) → Bool
+  | [] => true
+  | none :: rest => allNone rest
+  | some _ :: _ => false
+
+def allSome : List (Option (Tree V)) → Option (List (Tree V))
+  | [] => some []
+  | some t :: rest => (allSome rest).map (t :: ·)
+  | none :: _ => none
+
+/-- `any(arg for arg in (batch_size, device, names))` -/
+def overridden (o : Opts) : Bool :=
+  o.batchSize.isSome || (match o.device with | .given _ => true | .noDefault => false) ||
+    (match o.names with | .given _ => true | .noDefault => false)
+
+/-- mirrors `LazyStackedTensorDict._apply_nest`; the result is the member list of the lazy stack returned (`self`'s
+members when `inplace`), `none` when the call returns `None` -/
+def applyLazy (o : Opts) (fn : Fn V) (pre : Path) (members : List (Tree V)) (others : List (List (Tree V)))
+    (outs : Option (List (Tree V))) : Except Err (Option (List (Tree V))) :=
+  if o.inplace && overridden o then .error .value
+  else
+    match applyMembers { o with names := .noDefault, batchSize := none } fn pre members others outs with
+    | .error e => .error e
+    | .ok results =>
+      if allNone results && (o.filterEmpty = none || o.filterEmpty = some true) then .ok none
+      else if o.inplace then
+        -- `out = self`: every member that returned itself was written in place, the others are untouched
+        .ok (some (List.zipWith (fun m r => match r with | some t => t | none => m) members results))
+      else if results.isEmpty then .ok (some [])
+      else if allNone results then .ok none
+      else
+        match allSome results with
+        | some rs => .ok (some rs)
+        | none => .error .runtime                        -- a mix of None and non-None members cannot be re-stacked
 
 end TdVerif.C20
